@@ -624,7 +624,7 @@ def iterative_session(ctx, i, rng, return_logprobs=False, problem_kw=None):
         if rng.random() < 0.5:
             opts["randomize_prior_order"] = True
         if rng.random() < 0.5:
-            opts["max_prior_samples"] = int(rng.choice([max(1, N // 10), max(1, N // 2), N, N - 1 if N > 1 else 1]))
+            opts["max_prior_samples"] = int(rng.choice([max(1, N // 10), max(1, N // 2), N, N - 1 if N > 1 else 1, N + 7]))
         if rng.random() < 0.4:
             opts["n_batches"] = int(rng.choice([1, 2, 5]))
     if return_logprobs:
